@@ -334,15 +334,17 @@ Qed.
 Lemma count_app {A} (f : A -> bool) l1 l2 : count f (l1 ++ l2) = count f l1 + count f l2.
 Proof. unfold count. rewrite filter_app, app_length. reflexivity. Qed.
 
+Ltac basic_leaf := first [ assumption | lia | congruence | discriminate | reflexivity | idtac ].
+
 Ltac finG_leaf :=
-  first [ assumption | lia | congruence | discriminate | reflexivity
-        | match goal with
-          | H : forall es, _ = _ |- _ = _ =>
-              rewrite <- ?app_assoc; cbn [app]; rewrite H; cbn [gate_ok_from negb andb];
+  match goal with
+  | H : forall es : list sevent, _ = _ |- _ =>
+      first [ rewrite <- ?app_assoc; cbn [app]; rewrite H; cbn [gate_ok_from negb andb];
               repeat match goal with Hd : _ = true |- _ => rewrite Hd | Hd : _ = false |- _ => rewrite Hd end;
               reflexivity
-          end
-        | idtac ].
+            | clear H; basic_leaf ]
+  | _ => basic_leaf
+  end.
 
 Ltac foldd :=
   unfold is_data in *; sproj;
@@ -421,7 +423,9 @@ Proof.
   all: try match goal with Hr : sh_rpc _ = _ |- _ => rewrite Hr in Hi end.
   all: try solve [finG].
   all: destruct st as [| |[|]| |]; try solve [finG].
-  all: destruct os; try solve [finG].
+  all: unfold InvGP in Hi; destruct Hi as (Hg1 & Hg2 & Hg3 & Hg4 & Hg5).
+  all: assert (os = false) by (destruct os; [exfalso; apply Hg3; [reflexivity|assumption]|reflexivity]); subst os.
+  all: solve [finG].
 Qed.
 
 (* ================================================================== *)
@@ -443,12 +447,12 @@ Lemma InvR_init k h n : InvR (shell_init k h n).
 Proof. exists false. unfold InvRP. cbn. repeat split; try discriminate; try lia; reflexivity. Qed.
 
 Ltac finR_leaf :=
-  first [ assumption | lia | congruence | discriminate | reflexivity
-        | match goal with
-          | H : forall es, _ = _ |- _ = _ =>
-              rewrite <- ?app_assoc; cbn [app]; rewrite H; cbn [init_reply_first_from negb andb]; reflexivity
-          end
-        | idtac ].
+  match goal with
+  | H : forall es : list sevent, _ = _ |- _ =>
+      first [ rewrite <- ?app_assoc; cbn [app]; rewrite H; cbn [init_reply_first_from negb andb]; reflexivity
+            | clear H; basic_leaf ]
+  | _ => basic_leaf
+  end.
 
 Ltac finR :=
   unfold InvRP, cnt_ir in *; sproj; hsimp;
@@ -490,7 +494,9 @@ Proof.
   all: try (nth_facts; inv1_facts Hi1).
   all: try match goal with Hr : sh_rpc _ = _ |- _ => rewrite Hr in Hi end.
   all: try solve [finR].
-  all: destruct seen; try solve [finR].
+  all: unfold InvRP in Hi; destruct Hi as (Hr1 & Hr2 & Hr3 & Hr4 & Hr5).
+  all: assert (seen = false) by (destruct seen; [exfalso; apply Hr2; [reflexivity|assumption]|reflexivity]); subst seen.
+  all: solve [finR].
 Qed.
 
 (* ================================================================== *)
@@ -523,3 +529,185 @@ Qed.
 Lemma sreach_Inv k h n s : sreach k h n s -> Inv s.
 Proof. intros [ls Hr]. eapply Inv_run; [apply Inv_init|exact Hr]. Qed.
 
+(* ================================================================== *)
+(* 7. C14                                                               *)
+(* ================================================================== *)
+
+Theorem rac_first_reachable : forall k h n s, sreach k h n s -> rac_first (sh_hist s) = true.
+Proof.
+  intros k h n s Hr. destruct (sreach_Inv _ _ _ _ Hr) as (H1 & _).
+  rewrite rac_first_racf. apply H1.
+Qed.
+
+Theorem inv_start_reachable : forall k h n s, sreach k h n s -> inv_start s = true.
+Proof.
+  intros k h n s Hr. destruct (sreach_Inv _ _ _ _ Hr) as (H1 & _).
+  unfold Inv1, Inv1P in H1. destruct H1 as (Hle & Hlt3 & Hlt2 & Hlt1 & _ & _ & Hpool & _).
+  unfold inv_start.
+  apply andb_true_iff; split; [apply andb_true_iff; split; [apply andb_true_iff; split|]|].
+  - destruct (Nat.leb 3 (sh_start s)) eqn:E; [reflexivity|]. apply Nat.leb_gt in E.
+    destruct (Hlt3 E) as (Hp & Hn & Ha & _ & _ & Hw). destruct (Hpool Hn) as [Hj _].
+    rewrite Hp, Hj, Hn, Ha. cbn [orb andb is_nil Nat.eqb]. rewrite andb_true_r. exact Hw.
+  - destruct (Nat.leb 2 (sh_start s)) eqn:E; [reflexivity|]. apply Nat.leb_gt in E.
+    rewrite (Hlt2 E). reflexivity.
+  - destruct (Nat.leb 1 (sh_start s)) eqn:E; [reflexivity|]. apply Nat.leb_gt in E.
+    rewrite (Hlt1 E). reflexivity.
+  - apply Nat.leb_le. exact Hle.
+Qed.
+
+Lemma oline_eqb_refl l : oline_eqb l l = true.
+Proof. destruct l; cbn [oline_eqb]; rewrite ?Nat.eqb_refl, ?eqb_reflx; reflexivity. Qed.
+
+Lemma is_prefix_app a x : is_prefix a (a ++ x) = true.
+Proof.
+  induction a as [|y a IH]; [reflexivity|].
+  cbn [app is_prefix]. rewrite oline_eqb_refl, IH. reflexivity.
+Qed.
+
+Lemma InvW_prefix s : InvW s -> exists x, map snd (puts_of (sh_hist s)) = written_of (sh_hist s) ++ x.
+Proof.
+  unfold InvW. destruct (sh_wpc s); intros H; try exact H; eexists; exact H.
+Qed.
+
+Theorem written_prefix_reachable : forall k h n s, sreach k h n s -> written_prefix (sh_hist s) = true.
+Proof.
+  intros k h n s Hr. destruct (sreach_Inv _ _ _ _ Hr) as (_ & HW & _).
+  destruct (InvW_prefix _ HW) as [x Hx]. unfold written_prefix. rewrite Hx. apply is_prefix_app.
+Qed.
+
+Lemma filter_none {A} (f : A -> bool) l : existsb f l = false -> filter f l = [].
+Proof.
+  induction l as [|a l IH]; [reflexivity|]. cbn [existsb filter].
+  destruct (f a); [discriminate|]. exact IH.
+Qed.
+
+Lemma racf_count ps : racf ps = true -> ps <> [] -> count (fun p => is_rac (snd p)) ps = 1.
+Proof.
+  destruct ps as [|[t o] r]; [congruence|]. cbn [racf].
+  destruct t; try discriminate. destruct o; try discriminate. intros H _.
+  apply negb_true_iff in H. unfold count. cbn [filter snd is_rac].
+  rewrite (filter_none _ _ H). reflexivity.
+Qed.
+
+(* once start() is past its second step there is exactly one credentials message *)
+Theorem rac_exactly_once : forall k h n s, sreach k h n s -> (2 <= sh_start s)%nat ->
+  count (fun p => is_rac (snd p)) (puts_of (sh_hist s)) = 1%nat.
+Proof.
+  intros k h n s Hr H2. destruct (sreach_Inv _ _ _ _ Hr) as (H1 & _).
+  unfold Inv1, Inv1P in H1. destruct H1 as (_ & _ & _ & _ & Hne & Hrac & _).
+  apply racf_count; [exact Hrac|apply Hne; exact H2].
+Qed.
+
+(* hence the first line written, if any, is the credentials message *)
+Theorem first_written_is_rac : forall k h n s l rest, sreach k h n s ->
+  written_of (sh_hist s) = l :: rest -> l = ORac.
+Proof.
+  intros k h n s l rest Hr Hw. destruct (sreach_Inv _ _ _ _ Hr) as (H1 & HW & _).
+  destruct (InvW_prefix _ HW) as [x Hx]. rewrite Hw in Hx.
+  unfold Inv1, Inv1P in H1. destruct H1 as (_ & _ & _ & _ & _ & Hrac & _).
+  destruct (puts_of (sh_hist s)) as [|[t o] r]; [discriminate Hx|].
+  cbn [map snd app] in Hx. injection Hx as Ho _. subst o.
+  cbn [racf] in Hrac. destruct t; try discriminate Hrac. destruct l; try discriminate Hrac. reflexivity.
+Qed.
+
+(* ================================================================== *)
+(* 8. C10                                                               *)
+(* ================================================================== *)
+
+Theorem gate_ok_reachable : forall k h n s, sreach k h n s -> gate_ok (is_data s) (sh_hist s) = true.
+Proof.
+  intros k h n s Hr. destruct (sreach_Inv _ _ _ _ Hr) as (_ & _ & (st & os & HG & _) & _).
+  specialize (HG []). rewrite app_nil_r in HG. unfold gate_ok. rewrite HG. reflexivity.
+Qed.
+
+Theorem inv_gate_reachable : forall k h n s, sreach k h n s -> inv_gate s = true.
+Proof.
+  intros k h n s Hr. destruct (sreach_Inv _ _ _ _ Hr) as (H1 & _ & (st & os & _ & _ & _ & HG & _) & _).
+  unfold Inv1, Inv1P in H1. destruct H1 as (_ & _ & _ & _ & _ & _ & Hpool & Hie & _).
+  unfold inv_gate. destruct (sh_init_expected s) eqn:E; [|reflexivity].
+  destruct (Hie eq_refl) as [Hn _]. destruct (Hpool Hn) as [Hj Hq]. destruct (HG eq_refl) as [_ Hex].
+  rewrite Hj, Hn. cbn [negb orb is_nil Nat.eqb andb].
+  change (forallb is_quiet (sh_workers s) && negb (existsb callb_or_submit (sh_hist s)) = true).
+  rewrite Hq, Hex. reflexivity.
+Qed.
+
+Theorem init_once_reachable : forall k h n s, sreach k h n s -> init_once (sh_hist s) = true.
+Proof.
+  intros k h n s Hr.
+  destruct (sreach_Inv _ _ _ _ Hr) as (_ & _ & (st & os & _ & _ & _ & _ & HG) & (seen & _ & _ & HR & _)).
+  unfold init_once. apply andb_true_iff; split; apply Nat.leb_le.
+  - change (count is_initcall (sh_hist s) <= 1). rewrite HG. destruct st; lia.
+  - exact HR.
+Qed.
+
+Theorem init_reply_first_reachable : forall k h n s, sreach k h n s -> init_reply_first (sh_hist s) = true.
+Proof.
+  intros k h n s Hr. destruct (sreach_Inv _ _ _ _ Hr) as (_ & _ & _ & (seen & HR & _)).
+  specialize (HR []). rewrite app_nil_r in HR. unfold init_reply_first. rewrite HR. reflexivity.
+Qed.
+
+(* rejected without touching the adapter and without a reply: dispatching a request while the init request is still
+   expected, or an init request when it is not, changes nothing but the handler notification *)
+Definition quiet_fields (s s' : shell) : Prop :=
+  sh_jobs s' = sh_jobs s /\ sh_njobs s' = sh_njobs s /\ sh_outq s' = sh_outq s /\ sh_workers s' = sh_workers s /\
+  sh_init_expected s' = sh_init_expected s /\ sh_close_expected s' = sh_close_expected s /\ sh_stop s' = sh_stop s.
+
+Lemma reject_spec s rest0 :
+  let s' := match reader_hand s with
+            | (s1, Some p) => set_reader s1 (sh_init_expected s1) (sh_close_expected s1) rest0 p
+            | (s1, None) => settle s1 []
+            end in
+  quiet_fields s s' /\
+  (match sh_handler s with
+   | HNone => sh_hist s' = sh_hist s ++ [EHand ThReader] /\ sh_rpc s' = (if is_data s then RFalPut else (if sh_stop s then RDead else RRecv)) \/
+              sh_hist s' = sh_hist s ++ [EHand ThReader; EReaderEnd]
+   | HRet _ _ => sh_hist s' = sh_hist s /\ sh_rpc s' = RHandY
+   end).
+Proof.
+  intros s'. subst s'. unfold reader_hand, quiet_fields.
+  destruct (sh_handler s) as [|er ir].
+  - destruct (is_data s) eqn:Hd.
+    + sproj. split; [repeat split|]. left. split; reflexivity.
+    + cbn [settle]. sproj. destruct (sh_stop s) eqn:Hst; sproj.
+      * split; [repeat split; assumption|]. right. rewrite <- app_assoc. reflexivity.
+      * split; [repeat split; assumption|]. left. split; reflexivity.
+  - sproj. split; [repeat split|]. split; reflexivity.
+Qed.
+
+Theorem early_request_rejected : forall s rid wf known,
+  sh_init_expected s = true ->
+  let s' := settle s [LcReq rid wf known] in
+  quiet_fields s s' /\
+  (match sh_handler s with
+   | HNone => sh_hist s' = sh_hist s ++ [EHand ThReader] /\ sh_rpc s' = (if is_data s then RFalPut else (if sh_stop s then RDead else RRecv)) \/
+              sh_hist s' = sh_hist s ++ [EHand ThReader; EReaderEnd]
+   | HRet _ _ => sh_hist s' = sh_hist s /\ sh_rpc s' = RHandY
+   end).
+Proof.
+  intros s rid wf known Hie. cbn [settle]. rewrite Hie. apply reject_spec.
+Qed.
+
+Theorem late_init_rejected : forall s rid wf refused oldv,
+  sh_init_expected s = false ->
+  let s' := settle s [LcInit rid wf refused oldv] in
+  quiet_fields s s' /\
+  (match sh_handler s with
+   | HNone => sh_hist s' = sh_hist s ++ [EHand ThReader] /\ sh_rpc s' = (if is_data s then RFalPut else (if sh_stop s then RDead else RRecv)) \/
+              sh_hist s' = sh_hist s ++ [EHand ThReader; EReaderEnd]
+   | HRet _ _ => sh_hist s' = sh_hist s /\ sh_rpc s' = RHandY
+   end).
+Proof.
+  intros s rid wf refused oldv Hie. cbn [settle]. rewrite Hie. cbn [negb]. apply reject_spec.
+Qed.
+
+Print Assumptions rac_first_reachable.
+Print Assumptions inv_start_reachable.
+Print Assumptions written_prefix_reachable.
+Print Assumptions rac_exactly_once.
+Print Assumptions first_written_is_rac.
+Print Assumptions gate_ok_reachable.
+Print Assumptions inv_gate_reachable.
+Print Assumptions init_once_reachable.
+Print Assumptions init_reply_first_reachable.
+Print Assumptions early_request_rejected.
+Print Assumptions late_init_rejected.
